@@ -1208,6 +1208,13 @@ def purity_pool():
         # 27..30: set-up / light filler / probes of the long-run histories (see long_run_histories)
         {"f": "compress", "pkt": few}, {"f": "compress", "pkt": H.hdr(7, 0x8180, 1, 0, 0, 0) + q},
         {"f": "compress", "pkt": probe}, {"f": "rename", "pkt": probe, "target": H.name("net"), "source": H.name("org"), "suffix": True},
+        # 31..: a large and a small input for every kind of builder and converter (a scratch buffer that is not reset
+        # shows when a small input follows a large one of the same kind)
+        {"f": "synth", "pkt": [], "text": 'big. 1 IN TXT "' + "t" * 700 + '"'}, {"f": "synth", "pkt": [], "text": 'zz. 1 IN TXT "hi"'},
+        {"f": "synth", "pkt": [], "text": "q.ex. 9 IN MX 5 m.ex."}, {"f": "synth", "pkt": [], "text": "ex. 60 IN DS 12345 8 2 " + "ab" * 300},
+        {"f": "synth", "pkt": [], "text": "ex. 60 IN DS 1 8 2 abcd"},
+        {"f": "synth", "pkt": [], "text": "ex. 3 IN SOA " + ".".join(["n" * 60] * 4) + ". " + ".".join(["h" * 60] * 4) + ". (1 2 3 4 5)"},
+        {"f": "name", "pkt": [], "text_bytes": H.L(".".join(["w" * 62] * 4)[:250])}, {"f": "name", "pkt": [], "text_bytes": H.L("a")},
     ]
     for i, c in enumerate(pool):
         c["x"] = i
@@ -1229,7 +1236,7 @@ def long_run_histories(pool):
 
 @check("C17")
 def c17(run):
-    run.assumptions += ["histories: every ordered pair (thorough: triple) of calls from a pool of 31, long-run histories (a set-up call, 2^8 and 2^16 -2..+1 light calls, probes sharing names with the set-up), enumerated by TLC and executed back to back on one thread of one process, then the pool executed concurrently on 2, 4 and 8 threads in rotated orders, repeated; outputs are logged in full and TLC keeps a memo across the whole trace",
+    run.assumptions += ["histories: every ordered pair (thorough: triple) of calls from a pool of 39 (a large and a small input for every kind of call), long-run histories (a set-up call, 2^8 and 2^16 -2..+1 light calls, probes sharing names with the set-up), enumerated by TLC and executed back to back on one thread of one process, then the pool executed concurrently on 2, 4 and 8 threads in rotated orders, repeated; outputs are logged in full and TLC keeps a memo across the whole trace",
                         "for parse the 'output' is the bytes plus every public field of the parsed object; for ParsedPacket::empty() and synth::gen::query() the two id bytes are not compared"]
     pool = purity_pool()
     seqs = [json.loads(x) for x in gen_tla(run, "Gen_Hist", "Gen_Hist_purity%d.cfg" % (2 if quick(run) else 3))]
